@@ -20,9 +20,9 @@ Definition mkO (pto : Z) (snr : option Z) (tl : option (list pS)) (cont : bool) 
 Definition mkP (nr start : Z) (ases : list asOut) : period := {| pd_nr := nr; pd_start := start; pd_as := ases |}.
 
 Inductive c06case :=
-| CLive (id : Z) (ng : bool) (widen : option Z) (pph segDurMS : Z) (mode : mpdType) (cont : bool) (startS snr now : Z) (stopS : option Z) (tsbdMS : Z) (ases : list asIn)
+| CLive (id : Z) (ng : bool) (widen : option (Z * Z)) (pph segDurMS : Z) (mode : mpdType) (cont : bool) (startS snr now : Z) (stopS : option Z) (tsbdMS : Z) (ases : list asIn)
         (o_status : Z) (o_periods : list period) (o_publish : option Z)
-| CSplit (id : Z) (ng : bool) (widen : option Z) (pph segDurMS : Z) (mode : mpdType) (cont : bool) (astMS snr startTimeMS now : Z) (ases : list asIn)
+| CSplit (id : Z) (ng : bool) (widen : option (Z * Z)) (pph segDurMS : Z) (mode : mpdType) (cont : bool) (astMS snr startTimeMS now : Z) (ases : list asIn)
          (o_status : Z) (o_periods : list period)
 | CReduce (id : Z) (es : list pS) (startNr : option Z) (tsc ps pe : Z) (o_S : list pS) (o_nr : Z).
 
